@@ -16,7 +16,8 @@ import (
 	"tkestack.io/kvass/pkg/discovery"
 )
 
-var c17Jobs = []string{"ja", "jb", "jc"}
+// job names are case-sensitive: "JA" is another job than "ja"
+var c17Jobs = []string{"ja", "jb", "jc", "JA"}
 
 func c17Config(jobs []string, noClient ...string) string {
 	return c17ConfigStrict(jobs, nil, noClient...)
@@ -142,7 +143,7 @@ func c17GenSteps(r *core.Rng, n int) []c17Step {
 				}
 			}
 			if len(nj) == 0 {
-				nj = []string{c17Jobs[r.Intn(3)]}
+				nj = []string{c17Jobs[r.Intn(len(c17Jobs))]}
 			}
 			prevCfg := cfg
 			cfg = nj
@@ -759,7 +760,7 @@ func init() {
 		ID:    "C17",
 		Level: "exploration",
 		Rule: "monitors over the real TargetsDiscovery + Explore wired as in cmd/kvass/coordinator.go, driven through the channel the Prometheus discovery manager would feed: " +
-			"(1) even cases: a seed-determined sequence of 12-41 steps (full updates, partial first rounds, updates still carrying a just-removed job, reloads that add/remove/keep jobs over {ja,jb,jc}, targets that relabeling drops) with ActiveTargets / DropTargets / ActiveTargetsByHash / Explore.Get compared to a reference model after every step and all earlier snapshots re-checked for mutation; " +
+			"(1) even cases: a seed-determined sequence of 12-41 steps (full updates, partial first rounds, updates still carrying a just-removed job, reloads that add/remove/keep jobs over {ja,jb,jc,JA} (two names differ in case only), targets that relabeling drops) with ActiveTargets / DropTargets / ActiveTargetsByHash / Explore.Get compared to a reference model after every step and all earlier snapshots re-checked for mutation; " +
 			"a third of the update runs in (1) are sent back to back (2-4 updates without waiting for the explorer) and judged after the last; " +
 			"(2) odd cases: the same kind of steps from one writer with 4-8 concurrent reader goroutines; every update carries a unique version in its target ids, reads and writes are recorded with call/return times from one monotonic clock and the history (<= 60 operations) is checked with porcupine against a sequential map job->version in which a reload removes exactly the deleted jobs; torn reads (two versions of one job) are reported directly; " +
 			"in (1) every reload draws per job whether its relabel rule also drops targets labelled dropme=maybe, one reload in three keeps the job names of the previous configuration (content-only reload), every update carries such targets, and the model translates each update under the latest reload;  " +
